@@ -770,8 +770,9 @@ class Flow:
                         for k, x, i in ds):
                     out = set()
                     for k, x, i in ds:
-                        out |= self.iter_atoms(x, idx, sc, None, depth,
-                                               _seen)
+                        out |= self.iter_atoms(
+                            x, idx, sc, bind if sc is fn else None, depth,
+                            _seen)
                     return out
                 if ds:
                     break
